@@ -96,6 +96,10 @@ func run(prop, tier, repo, verif, dump, explain string, seed int, ov map[string]
 	if dump != "" {
 		return dumpFunc(p, dump)
 	}
+	if strings.HasPrefix(dumpH, "flow:") {
+		rules.DumpFlow(rules.NewCtx(p, "debug", tier), strings.TrimPrefix(dumpH, "flow:"))
+		return 0
+	}
 	if dumpH != "" {
 		rules.DumpHandlers(rules.NewCtx(p, "debug", tier), dumpH)
 		return 0
